@@ -508,6 +508,7 @@ class World:
         self.assocs = {}         # src tuple -> live association dict
         self.all_assocs = []
         self.alloc_count = {}    # id -> how many flows it has been given to (id reuse = count > 1)
+        self.occupied_total = 0  # ids taken by other flows (occupy steps)
         # server ground truth
         self.server_dead = None
         self.server_entered = False
@@ -822,6 +823,7 @@ class World:
                 other._other = True
                 if not self.cmux.channels.get(int(w[1])):     # another flow only ever gets a free id
                     self.cmux.channels[int(w[1])] = other
+                    self.occupied_total += 1
             elif op == 'release':
                 if getattr(self.cmux.channels.get(int(w[1])), '_other', False):
                     self.cmux.channels[int(w[1])] = None    # what MuxWrapper.maybe_close does
@@ -1036,13 +1038,13 @@ class World:
             self.h('client-raised-on-injected-frame:' + tag)
             return
         prop = 'C11' if (pre and pre.get('kind') == 'udp') else 'C10'
-        if pre and pre.get('kind') == 'frame' and pre['meta'] and self.reuse(pre['frame'][0]):
+        if pre and pre.get('kind') == 'frame' and pre['meta'] and self.alloc_count.get(pre['frame'][0], 0) > 1:
             # a reply for a previous owner of the id was handed to the flow that has it now
             if pre['meta'][0] == 'dns-reply':
-                self.violate('C10:id-reuse:reply-delivered-to-another-requester',
+                self.violate('C10:' + self.reuse(pre['frame'][0]) + 'reply-delivered-to-another-requester',
                              'the reply reaches its own asker or nobody', 'handed to another flow, which raised %r' % (e,))
             else:
-                self.violate('C11:id-reuse:reply-delivered-to-another-source',
+                self.violate('C11:' + self.reuse(pre['frame'][0]) + 'reply-delivered-to-another-source',
                              'the reply reaches its own source or nobody', 'handed to another flow, which raised %r' % (e,))
             return
         if op == 'cudp' and self.method_name == 'base':
@@ -1232,6 +1234,11 @@ class World:
                                  'handed to the UDP association of %s' % show_addr(target_a['src']))
                 elif emits:
                     self.violate('C10:reply-delivered-after-release', 'no datagram', [self.show_emit(e) for e in emits])
+                elif q['state'] == 'pending':
+                    self.violate('C10:reply-not-delivered',
+                                 'the reply to query %d (still outstanding: not answered, not past its deadline at any '
+                                 'accept) is delivered to %s' % (q['qid'], show_addr(q['asker'])),
+                                 'dropped: its id %d has no callback any more' % q['chan'])
                 else:
                     self.h('dns-late-reply-dropped')
                 return
@@ -1262,8 +1269,16 @@ class World:
                              'one datagram %s from %s to %s' % (hexb(data)[:60], show_addr(host[:2]), show_addr(a['src'])),
                              [self.show_emit(e)[:200] for e in emits])
 
+    def full_cycle(self):
+        """Ids are handed out round-robin: an id can only come back after the cursor has been round all
+        MAX_CHANNEL ids, each of which was then given out or held by a flow.  So a legitimate reuse
+        (the known finding F19) needs at least MAX_CHANNEL allocations/occupations in the history."""
+        return sum(self.alloc_count.values()) + self.occupied_total >= self.max_ch
+
     def reuse(self, chan):
-        return 'id-reuse:' if self.alloc_count.get(chan, 0) > 1 else ''
+        """'id-reuse:' marks the F19 class (reuse after a full cursor cycle); an id that comes back
+        earlier than that is NOT that class and gets the plain key."""
+        return 'id-reuse:' if (self.alloc_count.get(chan, 0) > 1 and self.full_cycle()) else ''
 
     def check_dns_emit(self, q, data, emits, injected):
         C = self.client
@@ -1465,7 +1480,7 @@ class World:
                 dns_fr = [m for f, m in info['frames'] if f[1] == C.CMD_DNS_REQ]
                 self.h('server-raised-in-tunnel-read:' + raised)
                 if raised == 'fatal' and any(m and m[0] == 'udp-open' for _f, m in info['frames']):
-                    self.violate('C11:id-reuse:reopen-before-sweep-kills-server',
+                    self.violate('C11:' + ('id-reuse:' if self.full_cycle() else '') + 'reopen-before-sweep-kills-server',
                                  'a fresh association opens after the old one was closed',
                                  'server Fatal (UDP connection channel already open)')
                 elif raised == 'osError.%d' % errno.EMFILE and self.fd_budget is not None:
@@ -1559,11 +1574,60 @@ class ScenarioGen:
         return '%s %d %s %s %s' % ('cdns' if kind == 'dns' else 'cudp', 10 if v6 else 2, show_addr(src),
                                    show_oaddr(dst), hexb(rand_payload(rng)))
 
+    def sock_of_query(self, w, qid):
+        recs = [r for r in w.socks.values() if r.kind == 'dns' and r.owner_meta == ('dns', qid)]
+        return recs[-1].sid if recs else None
+
+    def plan_late_reply_family(self, w):
+        """Query A is not answered in time and forgotten at an accept; query B comes from another source;
+        then A's late reply arrives, then B's own."""
+        rng = self.rng
+        T = 30 * TICKS
+        st = {}
+
+        def cap_a(w):
+            st['qa'] = w.nq
+            return 'cdns 2 10.0.0.5|%d 9.9.9.9|53 %s' % (4000 + rng.randrange(3), hexb(rand_payload(rng)[:32]))
+
+        def cap_b(w):
+            st['qb'] = w.nq
+            return 'cdns 2 10.0.0.6|%d 9.9.9.9|53 %s' % (4100 + rng.randrange(3), hexb(rand_payload(rng)[:32]))
+
+        def deliver_all(w):
+            return 'sround %d' % max(1, min(len(w.c2s), 6)) if (w.c2s and not w.server_dead) else 'tick 1'
+
+        def reply(which):
+            def f(w):
+                k = self.sock_of_query(w, st.get(which, -1))
+                if k is None or w.server_dead:
+                    return 'caccept'
+                return 'ssock %d d 1.1.1.1|53 %s' % (k, hexb(rand_payload(rng)[:32]))
+            return f
+        early = rng.random() < 0.5
+        plan = [cap_a]
+        if early:
+            plan += [deliver_all, lambda w: 'tick %d' % (T + 1 + rng.choice([0, 1, 700]))]
+        else:
+            d = rng.choice([1024, 5 * TICKS, 20 * TICKS])
+            plan += [lambda w: 'tick %d' % d, deliver_all, lambda w: 'tick %d' % (T - d + 1)]
+        if rng.random() < 0.6:
+            plan.append(lambda w: 'caccept')
+        plan += [cap_b, deliver_all, reply('qa'), reply('qb')]
+        if rng.random() < 0.5:
+            plan[-2], plan[-1] = plan[-1], plan[-2]
+        plan += [lambda w: 'cdeliver', lambda w: 'cdeliver']
+        return plan
+
     def __call__(self, w):
-        if self.left <= 0:
+        if self.left <= 0 and not getattr(self, 'plan', None):
             return None
         self.left -= 1
         rng = self.rng
+        if getattr(self, 'plan', None):
+            return self.plan.pop(0)(w)
+        if self.focus == 'dns' and not w.server_dead and rng.random() < 0.04:
+            self.plan = self.plan_late_reply_family(w)
+            return self.plan.pop(0)(w)
         udp_ok = w.method_name == 'tproxy'
         opts = []
         dnsw, udpw = (5, 2) if self.focus == 'dns' else (1, 6)
@@ -1738,6 +1802,22 @@ def corpus(focus):
             cases.append(('dns-tiny-datagrams-%d' % i, 'cfg method=tproxy max=65535 probes=1024 ns=1.1.1.1 tons=-',
                           [cap % qq, cap % rr, 'sround 2', 'ssock 0 d 1.1.1.1|53 %s' % rr, 'ssock 1 d 1.1.1.1|53 %s' % qq,
                            'cdeliver', 'cdeliver', 'tick %d' % (T + 1), 'caccept']))
+        # a query nobody answered in time is forgotten; the next query comes from another source; then the
+        # old query's late reply arrives, then the new one's own reply (cursor position / occupancy varied)
+        qb = 'cdns 2 10.0.0.6|4000 9.9.9.9|53 %s'
+        for i, (pre_steps, late_server) in enumerate([([], True), ([], False), (['occupy 1'], True), (['occupy 2', 'occupy 3'], True),
+                                                      ([q % 'e0', 'sround 1', 'ssock 0 d 1.1.1.1|53 e1', 'cdeliver'], True),
+                                                      (['occupy 1', 'release 1'], False),
+                                                      ([q % 'e0', q % 'e1', 'sround 2', 'smulti 0.d.f0;1.d.f1', 'cdeliver', 'cdeliver'], True),
+                                                      (['cudp 2 10.0.0.9|4009 5.6.7.8|99 00'], True)]):
+            n0 = sum(1 for x in pre_steps if x.startswith('cdns'))       # sockets already created on the server
+            st = list(pre_steps) + [q % 'a0']
+            st += (['tick %d' % (5 * TICKS), 'sround 9', 'tick %d' % (T - 5 * TICKS + 1)] if late_server
+                   else ['sround 9', 'tick %d' % (T + 1)])
+            st += [['caccept'], [], ['caccept', 'caccept']][i % 3]        # any accept forgets A (B's own capture does too)
+            st += [qb % 'b0', 'sround 9', 'ssock %d d 1.1.1.1|53 a1' % n0, 'ssock %d d 1.1.1.1|53 b1' % (n0 + 1),
+                   'cdeliver', 'cdeliver', 'cdeliver']
+            cases.append(('dns-late-reply-after-expiry-%d' % i, 'cfg method=tproxy max=65535 probes=1024 ns=1.1.1.1 tons=-', st))
         # several queries answered in the same runonce pass, then duplicates / late datagrams on their sockets
         for nq in (2, 3):
             st = [q % ('%02x' % i) for i in range(nq)] + ['sround %d' % nq,
